@@ -598,3 +598,255 @@ Example coherent_example_ok :
   sort_aliases coherent_example <> coherent_example /\
   remove_unused [2; 12] coherent_example <> coherent_example.
 Proof. vm_compute. split; [reflexivity|]. repeat split; intro H; discriminate H. Qed.
+
+(* =========================================================================================== *)
+(* T18.1  star expansion and re-export redirection preserve `resolve`                            *)
+
+(* ---- fuel: a result other than Timeout is stable *)
+Lemma scan_mono : forall (rec rec' : modname -> name -> res) g m n bs,
+  (forall m' x, rec m' x <> Timeout -> rec' m' x = rec m' x) ->
+  scan rec g m n bs <> Timeout -> scan rec' g m n bs = scan rec g m n bs.
+Proof.
+  intros rec rec' g m n bs Hrec. induction bs as [|b bs IH]; intros Hnt; cbn [scan] in *; [reflexivity|].
+  destruct b as [x|x|m' x a|m'|m' a d].
+  - destruct (x =? n); [reflexivity|apply IH; exact Hnt].
+  - destruct (x =? n); [reflexivity|apply IH; exact Hnt].
+  - destruct (a =? n); [apply Hrec; exact Hnt|apply IH; exact Hnt].
+  - destruct (find_mod g m') as [mi'|]; [|apply IH; exact Hnt].
+    destruct (exported mi' n); [|apply IH; exact Hnt].
+    destruct (rec m' n) as [t| |] eqn:E.
+    + rewrite (Hrec m' n) by (rewrite E; discriminate). rewrite E. reflexivity.
+    + rewrite (Hrec m' n) by (rewrite E; discriminate). rewrite E. apply IH. exact Hnt.
+    + exfalso. apply Hnt. reflexivity.
+  - destruct (a =? n); [reflexivity|apply IH; exact Hnt].
+Qed.
+
+Theorem resolve_mono : forall f g m n,
+  resolve f g m n <> Timeout -> resolve (S f) g m n = resolve f g m n.
+Proof.
+  induction f as [|f IH]; intros g m n Hnt; [exfalso; apply Hnt; reflexivity|].
+  cbn [resolve] in *. destruct (find_mod g m) as [mi|]; [|reflexivity].
+  apply scan_mono; [|exact Hnt]. intros m' x H. apply IH. exact H.
+Qed.
+
+Lemma resolve_mono_plus : forall k f g m n,
+  resolve f g m n <> Timeout -> resolve (k + f) g m n = resolve f g m n.
+Proof.
+  induction k as [|k IH]; intros f g m n H; [reflexivity|].
+  cbn [plus]. rewrite resolve_mono; [apply IH; exact H|]. rewrite IH; exact H.
+Qed.
+
+(* ---- scanning depends on the resolver / graph only through the modules a body imports from *)
+Lemma scan_ext : forall (rec rec' : modname -> name -> res) g g' m n bs,
+  (forall b s, In b bs -> import_source b = Some s ->
+               (forall x, rec' s x = rec s x) /\ find_mod g' s = find_mod g s) ->
+  scan rec' g' m n bs = scan rec g m n bs.
+Proof.
+  intros rec rec' g g' m n bs. induction bs as [|b bs IH]; intros H; cbn [scan]; [reflexivity|].
+  assert (IH' : scan rec' g' m n bs = scan rec g m n bs).
+  { apply IH. intros b0 s Hin Hs. apply (H b0 s); [right; exact Hin|exact Hs]. }
+  destruct b as [x|x|m' x a|m'|m' a d]; try (rewrite IH'; reflexivity).
+  - destruct (H (From m' x a) m' (or_introl eq_refl) eq_refl) as [Hr _]. rewrite Hr, IH'. reflexivity.
+  - destruct (H (Star m') m' (or_introl eq_refl) eq_refl) as [Hr Hf]. rewrite Hf, Hr, IH'. reflexivity.
+Qed.
+
+(* ---- the block of explicit imports a star is replaced with *)
+Lemma scan_from_block : forall rec g c n m L X,
+  scan rec g c n (map (fun x => From m x x) L ++ X) =
+  if mem n L then rec m n else scan rec g c n X.
+Proof.
+  intros rec g c n m L X. induction L as [|x L IH]; cbn [map app scan]; [reflexivity|].
+  unfold mem. cbn [existsb]. fold (mem n L). rewrite (Nat.eqb_sym n x).
+  destruct (x =? n) eqn:E; cbn [orb]; [|exact IH].
+  apply Nat.eqb_eq in E. subst. reflexivity.
+Qed.
+
+Lemma insert_nat_In : forall x l y, In y (insert_nat x l) <-> y = x \/ In y l.
+Proof.
+  intros x l y. induction l as [|z l IH]; cbn [insert_nat In]; [intuition|].
+  destruct (x <=? z); cbn [In]; [intuition|]. rewrite IH. intuition.
+Qed.
+
+Lemma sort_nat_In : forall l y, In y (sort_nat l) <-> In y l.
+Proof.
+  intros l y. unfold sort_nat. induction l as [|x l IH]; cbn [fold_right In]; [tauto|].
+  rewrite insert_nat_In, IH. intuition.
+Qed.
+
+Lemma mem_false_iff : forall n l, mem n l = false <-> ~ In n l.
+Proof.
+  intros n l. split.
+  - intros H Hin. apply mem_In in Hin. rewrite H in Hin. discriminate.
+  - intros H. destruct (mem n l) eqn:E; [|reflexivity]. exfalso. apply H. apply mem_In. exact E.
+Qed.
+
+Lemma dedup_In : forall l x, In x (dedup l) <-> In x l.
+Proof.
+  intros l x. induction l as [|y l IH]; cbn [dedup]; [tauto|].
+  destruct (mem y l) eqn:E.
+  - rewrite IH. split; [intros H; right; exact H|].
+    intros [H|H]; [subst; apply mem_In; exact E|exact H].
+  - cbn [In]. rewrite IH. tauto.
+Qed.
+
+(* Python's and the tool's opinion about one star import agree for the name n *)
+Definition star_agrees (f : nat) (g : graph) (has : modname -> name -> bool) (n : name) (m : modname) : Prop :=
+  has m n = py_has f g m n.
+
+Lemma expand_rev_scan : forall f g c has n rbs pending,
+  (forall m, In (Star m) rbs -> star_agrees f g has n m) ->
+  In n pending ->
+  scan (resolve f g) g c n rbs <> Timeout ->
+  scan (resolve f g) g c n (expand_rev has rbs pending) = scan (resolve f g) g c n rbs.
+Proof.
+  intros f g c has n. induction rbs as [|b rbs IH]; intros pending Hag Hin Hnt; [reflexivity|].
+  assert (Hag' : forall m, In (Star m) rbs -> star_agrees f g has n m).
+  { intros m H. apply Hag. right. exact H. }
+  assert (Hskip : forall b', t_binds b' n = false ->
+                             In n (filter (fun n0 => negb (t_binds b' n0)) pending)).
+  { intros b' Hb. apply filter_In. split; [exact Hin|]. rewrite Hb. reflexivity. }
+  destruct b as [x|x|m' x a|m'|m' a d]; cbn [expand_rev].
+  - cbn [scan] in *. destruct (x =? n) eqn:E; [reflexivity|].
+    apply IH; [exact Hag'| |exact Hnt]. apply Hskip. unfold t_binds. cbn [t_match]. exact E.
+  - cbn [scan] in *. destruct (x =? n) eqn:E; [reflexivity|].
+    apply IH; [exact Hag'| |exact Hnt]. apply Hskip. unfold t_binds. cbn [t_match]. exact E.
+  - cbn [scan] in *. destruct (a =? n) eqn:E; [reflexivity|].
+    apply IH; [exact Hag'| |exact Hnt]. apply Hskip. unfold t_binds. cbn [t_match]. exact E.
+  - rewrite <- map_rev, scan_from_block.
+    specialize (Hag m' (or_introl eq_refl)). unfold star_agrees, py_has in Hag.
+    cbn [scan] in Hnt |- *.
+    destruct (has m' n) eqn:Eh.
+    + match goal with |- (if ?cnd then _ else _) = _ => assert (Hm : cnd = true) end.
+      { apply mem_In. apply -> in_rev. apply sort_nat_In. apply filter_In. auto. }
+      rewrite Hm. destruct (find_mod g m') as [mi'|]; [|discriminate].
+      symmetry in Hag. apply andb_true_iff in Hag. destruct Hag as [Hex Hfound]. rewrite Hex.
+      destruct (resolve f g m' n); try discriminate. reflexivity.
+    + match goal with |- (if ?cnd then _ else _) = _ => assert (Hm : cnd = false) end.
+      { apply mem_false_iff. intros H. apply (proj2 (in_rev _ _)) in H. apply (proj1 (sort_nat_In _ _)) in H.
+        apply (proj1 (filter_In _ _ _)) in H. destruct H as [_ H]. rewrite Eh in H. discriminate. }
+      rewrite Hm.
+      assert (Hrest : In n (filter (fun n0 => negb (has m' n0)) pending)).
+      { apply filter_In. split; [exact Hin|]. rewrite Eh. reflexivity. }
+      destruct (find_mod g m') as [mi'|]; [|apply IH; assumption].
+      destruct (exported mi' n); [|apply IH; assumption].
+      cbn [andb] in Hag. destruct (resolve f g m' n) as [t| |]; cbn [is_found] in Hag.
+      * discriminate.
+      * apply IH; assumption.
+      * exfalso. apply Hnt. reflexivity.
+  - cbn [scan] in *. destruct (a =? n) eqn:E; [reflexivity|].
+    apply IH; [exact Hag'| |exact Hnt]. apply Hskip. unfold t_binds. cbn [t_match]. rewrite E.
+    apply andb_false_r.
+Qed.
+
+(* ---- lifting to the graph: the client is not imported by anybody *)
+Definition client_leaf (g : graph) (c : modname) : bool :=
+  forallb (fun kv => forallb (fun b => match import_source b with
+                                       | Some m => negb (m =? c)
+                                       | None => true
+                                       end) (body (snd kv))) g.
+
+Lemma find_mod_In : forall g m mi, find_mod g m = Some mi -> In (m, mi) g.
+Proof.
+  induction g as [|[k v] g IH]; intros m mi H; cbn [find_mod] in H; [discriminate|].
+  destruct (k =? m) eqn:E.
+  - apply Nat.eqb_eq in E. inversion H. subst. left. reflexivity.
+  - right. apply IH. exact H.
+Qed.
+
+Lemma find_update_other : forall g c mi' m, m <> c -> find_mod (update_mod g c mi') m = find_mod g m.
+Proof.
+  induction g as [|[k v] g IH]; intros c mi' m Hne; cbn [update_mod find_mod]; [reflexivity|].
+  destruct (k =? c) eqn:Ec; cbn [find_mod].
+  - apply Nat.eqb_eq in Ec. subst k. destruct (c =? m) eqn:Em; [|reflexivity].
+    apply Nat.eqb_eq in Em. subst. exfalso. apply Hne. reflexivity.
+  - destruct (k =? m); [reflexivity|]. apply IH. exact Hne.
+Qed.
+
+Lemma find_update_same : forall g c mi mi', find_mod g c = Some mi -> find_mod (update_mod g c mi') c = Some mi'.
+Proof.
+  induction g as [|[k v] g IH]; intros c mi mi' H; cbn [update_mod find_mod] in *; [discriminate|].
+  destruct (k =? c) eqn:Ec; cbn [find_mod]; rewrite Ec; [reflexivity|]. apply (IH c mi). exact H.
+Qed.
+
+Lemma client_leaf_source : forall g c m mi b s,
+  client_leaf g c = true -> find_mod g m = Some mi -> In b (body mi) -> import_source b = Some s -> s <> c.
+Proof.
+  intros g c m mi b s Hl Hf Hb Hs. unfold client_leaf in Hl. rewrite forallb_forall in Hl.
+  specialize (Hl _ (find_mod_In _ _ _ Hf)). cbn [snd] in Hl. rewrite forallb_forall in Hl.
+  specialize (Hl _ Hb). rewrite Hs in Hl. intros Heq. subst. rewrite Nat.eqb_refl in Hl. discriminate.
+Qed.
+
+Lemma resolve_update_other : forall g c mi', client_leaf g c = true ->
+  forall f m n, m <> c -> resolve f (update_mod g c mi') m n = resolve f g m n.
+Proof.
+  intros g c mi' Hl. induction f as [|f IH]; intros m n Hne; [reflexivity|].
+  cbn [resolve]. rewrite find_update_other by exact Hne.
+  destruct (find_mod g m) as [mi|] eqn:Ef; [|reflexivity].
+  apply scan_ext. intros b s Hb Hs. apply in_rev in Hb.
+  assert (Hsc : s <> c) by exact (client_leaf_source g c m mi b s Hl Ef Hb Hs).
+  split; [intros x; apply IH; exact Hsc|apply find_update_other; exact Hsc].
+Qed.
+
+Lemma expand_rev_sources : forall has rbs pending b' s,
+  In b' (expand_rev has rbs pending) -> import_source b' = Some s ->
+  exists b, In b rbs /\ import_source b = Some s.
+Proof.
+  intros has. induction rbs as [|b rbs IH]; intros pending b' s Hin Hs; [destruct Hin|].
+  assert (Hcons : forall pend, In b' (b :: expand_rev has rbs pend) -> exists b0, In b0 (b :: rbs) /\ import_source b0 = Some s).
+  { intros pend [H|H].
+    - subst. exists b'. split; [left; reflexivity|exact Hs].
+    - destruct (IH pend b' s H Hs) as [b0 [H1 H2]]. exists b0. split; [right; exact H1|exact H2]. }
+  destruct b as [x|x|m' x a|m'|m' a d]; cbn [expand_rev] in Hin; try (apply (Hcons _ Hin)).
+  apply in_app_or in Hin. destruct Hin as [H|H].
+  - apply in_rev in H. apply in_map_iff in H. destruct H as [x [Hx _]]. subst b'. cbn [import_source] in Hs.
+    exists (Star m'). split; [left; reflexivity|exact Hs].
+  - destruct (IH _ b' s H Hs) as [b0 [H1 H2]]. exists b0. split; [right; exact H1|exact H2].
+Qed.
+
+(* boolean form of the guard: on every star import of the client, for every referenced name, the
+   tool's test (trace_origin) and Python's star-import semantics give the same answer *)
+Definition stars_agree (f F : nat) (g : graph) (bs : list binding) (used : list name) : bool :=
+  forallb (fun b => match b with
+                    | Star m => forallb (fun n => Bool.eqb (star_ok g m n && t_has F g m n) (py_has f g m n)) used
+                    | _ => true
+                    end) bs.
+
+Theorem star_expansion_partial : forall f F g c mi used n,
+  find_mod g c = Some mi ->
+  client_leaf g c = true ->
+  stars_agree f F g (body mi) used = true ->
+  In n used ->
+  resolve (S f) g c n <> Timeout ->
+  resolve (S f) (update_mod g c (set_body mi (fix_starred F g (body mi) used))) c n = resolve (S f) g c n.
+Proof.
+  intros f F g c mi used n Hf Hl Hag Hn Hnt.
+  cbn [resolve] in *. rewrite (find_update_same g c mi _ Hf). rewrite Hf in *. cbn [set_body body].
+  unfold fix_starred. destruct (has_star (body mi)).
+  - rewrite rev_involutive.
+    set (has := fun m n0 => star_ok g m n0 && t_has F g m n0).
+    rewrite (scan_ext (resolve f g) _ g _ c n).
+    + apply expand_rev_scan; [| apply dedup_In; exact Hn | exact Hnt].
+      intros m Hm. apply in_rev in Hm. unfold star_agrees, has.
+      unfold stars_agree in Hag. rewrite forallb_forall in Hag. specialize (Hag _ Hm). cbn in Hag.
+      rewrite forallb_forall in Hag. specialize (Hag _ Hn). apply eqb_prop in Hag. exact Hag.
+    + intros b s Hb Hs. destruct (expand_rev_sources _ _ _ _ _ Hb Hs) as [b0 [Hb0 Hs0]].
+      apply in_rev in Hb0.
+      assert (Hsc : s <> c) by exact (client_leaf_source g c c mi b0 s Hl Hf Hb0 Hs0).
+      split; [intros x; apply resolve_update_other; assumption|apply find_update_other; exact Hsc].
+  - apply scan_ext. intros b s Hb Hs. apply in_rev in Hb.
+    assert (Hsc : s <> c) by exact (client_leaf_source g c c mi b s Hl Hf Hb Hs).
+    split; [intros x; apply resolve_update_other; assumption|apply find_update_other; exact Hsc].
+Qed.
+
+(* the guard is needed: module 10 contains `import 20.x` (binds the head 20, which trace_origin does
+   not see); the client `from 10 import *` references 20 *)
+Definition star_witness_graph : graph :=
+  [(10, MkMod false None [Import 20 20 true]); (30, MkMod false None [Star 10])].
+Theorem star_expansion_refuted : exists f F g c mi used n,
+  find_mod g c = Some mi /\ client_leaf g c = true /\ In n used /\
+  resolve (S f) g c n <> Timeout /\
+  resolve (S f) (update_mod g c (set_body mi (fix_starred F g (body mi) used))) c n <> resolve (S f) g c n.
+Proof.
+  exists 5, 5, star_witness_graph, 30, (MkMod false None [Star 10]), [20], 20.
+  vm_compute. repeat split; try discriminate. left. reflexivity.
+Qed.
